@@ -2461,3 +2461,73 @@ Proof.
     replace (count_ticks rest + (if is_tick i then 1 else 0)) with (count_ticks (i :: rest)); [exact Hinv|].
     unfold count_ticks. cbn [filter]. destruct (is_tick i); cbn [length]; lia.
 Qed.
+
+(* ------------------------------------------------------------------ *)
+(* Concrete states for the non-vacuity examples of Props/C17.v.
+   A 3-voter (1 2 3) + 1-learner (4) group at term 2; the log is [(1,t1) (2,t2)], all
+   committed/persisted/applied.  Node 1 leads; 2 and 4 have acknowledged index 2, node 3
+   only index 1.  election_timeout 10, heartbeat_timeout 1, check_quorum and pre_vote on. *)
+Definition ex_store : MemStorage.mem :=
+  mkMem (mkHS 2 1 2) (cs_from [1;2;3] [4])
+        [mkEntry 0 1 1 [] []; mkEntry 0 2 2 [] []] 0 0 false false None.
+Definition ex_log : raft_log := mkLog ex_store (u_new 3) 2 2 2 0.
+Definition ex_pr (m n : N) (s : pstate) : progress :=
+  mkPr m n s false 0 0 true (Inflights.new 256) 0 0.
+Definition ex_tracker : tracker :=
+  mkTr [(1, ex_pr 2 3 Replicate); (2, ex_pr 2 3 Replicate); (3, ex_pr 1 2 Probe);
+        (4, ex_pr 2 3 Replicate)]
+       (mkConf [1;2;3] [] [4] [] false) [] 256 false.
+Definition ex_leader : raft :=
+  mkRaft 2 1 1 [] ex_log 256 1048576 0 Leader true 1 None 0 (ro_new 0) 3 0 true true false false
+         false 1 10 15 10 20 0%Z u64_max 0 2 u64_max ex_tracker [] [12;13;14;16] None.
+Definition ex_follower (id : N) : raft :=
+  mkRaft 2 1 id [] ex_log 256 1048576 0 Follower true 1 None 0 (ro_new 0) 0 0 true true false false
+         false 1 10 15 10 20 0%Z u64_max 0 2 u64_max ex_tracker [] [12;13;14;16] None.
+Definition ex_tl_msg (from : N) : msg :=
+  msg_default <| m_type := MsgTransferLeader |> <| m_from := from |>.
+Definition ex_after (x : Res (raft * N)) : raft :=
+  match x with Ok (r, _) => r | Panic _ => ex_leader end.
+(* the leader after accepting a transfer to the lagging node 3 *)
+Definition ex_pending3 : raft := ex_after (step ex_leader (ex_tl_msg 3)).
+Definition ex_app_resp3 : msg :=
+  msg_default <| m_type := MsgAppendResponse |> <| m_from := 3 |> <| m_term := 2 |> <| m_index := 2 |>.
+Definition ex_timeout_now : msg :=
+  msg_default <| m_type := MsgTimeoutNow |> <| m_from := 1 |> <| m_term := 2 |>.
+Definition ex_vote_req (ctx : list N) : msg :=
+  msg_default <| m_type := MsgRequestVote |> <| m_from := 2 |> <| m_term := 3 |> <| m_index := 2 |>
+              <| m_log_term := 2 |> <| m_context := ctx |>.
+Definition ex_rn (r : raft) : rawnode :=
+  mkRN r (mkSS (r_leader_id r) (r_state r)) (mkHS (r_term r) (r_vote r) 2) 0 [] 2.
+
+Theorem other_entry_points_no_timeout_now :
+  (forall r cc r' o, raft_apply_conf_change r cc = Ok (r', o) ->
+     sel MsgTimeoutNow (r_msgs r') = sel MsgTimeoutNow (r_msgs r)) /\
+  (forall r i t r', on_persist_entries r i t = Ok r' ->
+     sel MsgTimeoutNow (r_msgs r') = sel MsgTimeoutNow (r_msgs r)) /\
+  (forall r i r', on_persist_snap r i = Ok r' ->
+     sel MsgTimeoutNow (r_msgs r') = sel MsgTimeoutNow (r_msgs r)) /\
+  (forall r a s r', commit_apply_internal r a s = Ok r' ->
+     sel MsgTimeoutNow (r_msgs r') = sel MsgTimeoutNow (r_msgs r)) /\
+  (forall r r', ping r = Ok r' -> sel MsgTimeoutNow (r_msgs r') = sel MsgTimeoutNow (r_msgs r)) /\
+  (forall r r' c, request_snapshot r = Ok (r', c) ->
+     sel MsgTimeoutNow (r_msgs r') = sel MsgTimeoutNow (r_msgs r)) /\
+  (forall r e r', enable_group_commit r e = Ok r' ->
+     sel MsgTimeoutNow (r_msgs r') = sel MsgTimeoutNow (r_msgs r)) /\
+  (forall r ids r', assign_commit_groups r ids = Ok r' ->
+     sel MsgTimeoutNow (r_msgs r') = sel MsgTimeoutNow (r_msgs r)) /\
+  (forall r t c r', adjust_max_inflight_msgs r t c = Ok r' ->
+     sel MsgTimeoutNow (r_msgs r') = sel MsgTimeoutNow (r_msgs r)) /\
+  (forall r hs r', load_state r hs = Ok r' -> r_msgs r' = r_msgs r).
+Proof.
+  repeat split; intros.
+  - apply apply_conf_change_frame in H. apply H.
+  - apply on_persist_entries_cf in H. apply H.
+  - apply on_persist_snap_cf in H. apply H.
+  - apply commit_apply_internal_cf in H. apply H.
+  - apply ping_cf in H. apply H.
+  - apply request_snapshot_cf in H. apply H.
+  - apply enable_group_commit_cf in H. apply H.
+  - apply assign_commit_groups_cf in H. apply H.
+  - apply adjust_max_inflight_msgs_cf in H. apply H.
+  - apply load_state_quiet in H. apply H.
+Qed.
